@@ -261,9 +261,11 @@ spif_ustr_init_from_fd(spif_ustr_t self, int fd)
     self->s = (spif_charptr_t) MALLOC(self->size);
 
     for (p = self->s; ((n = read(fd, p, buff_inc)) > 0) || (errno == EINTR);) {
-        self->size += n;
-        self->s = (spif_charptr_t) REALLOC(self->s, self->size);
-        p = self->s + (self->size - buff_inc);
+        if (n > 0) {
+            self->size += n;
+            self->s = (spif_charptr_t) REALLOC(self->s, self->size);
+            p = self->s + (self->size - buff_inc);
+        }
     }
     self->len = self->size - buff_inc;
     self->size = self->len + 1;
